@@ -236,7 +236,7 @@ def full_task(task):
     if not semantic:
         rec["status"] = "outside"
         rec["detail"] = ref_status
-        if not ({"C09", "C17", "C05"} & set(want)):
+        if not ({"C09", "C17", "C05", "C04"} & set(want)):
             return rec
     rec["effects"] = len(ref_trace) if semantic else 0
     outs = []
